@@ -89,6 +89,16 @@ theorem chan_ops_allowed : ∀ w ∈ Gen.C18Effects.chanOps, w ∈ Ref.C18Allowe
 theorem instance_writes_allowed : ∀ w ∈ Gen.C18Effects.instanceWrites, w ∈ Ref.C18Allowed.instanceWrites :=
   subCodes_sound _ _ (by decide +kernel)
 
+/-- TODAY the library has no first-use initialisation at all: no sync object and no field of a shared object written
+    after construction, so the plain machine (no `once` steps) is the right model and `LazySafe`
+    (Model/LazyInit.lean, Properties/C18Lazy.lean) has nothing to check.  When a reviewed entry is added to
+    corpus/C18/allowed-sync-uses.txt or allowed-shared-type-writes.txt this theorem stops holding ON PURPOSE: it has to
+    be replaced by the `LazySafe` argument for that entry. -/
+theorem no_first_use_initialisation :
+    Gen.C18Effects.syncUses = [] ∧ Gen.C18Effects.sharedTypeWrites = [] :=
+  ⟨subPairs_nil (xs := Gen.C18Effects.syncUses) (by decide +kernel),
+   subPairs_nil (xs := Gen.C18Effects.sharedTypeWrites) (by decide +kernel)⟩
+
 /-- every variable that is not init-only is the target of a reviewed write -/
 theorem runtime_written_vars_reviewed :
     ∀ v ∈ Gen.C18Effects.runtimeWrittenVars, v ∈ Ref.C18Allowed.sharedWrites.map (·.2) := by
